@@ -38,6 +38,12 @@ pub struct EnvState {
     pub getrandom_calls: u64,
     pub in_call_ticks: u64,
     pub in_call_back_steps: u64,
+    /// environment: what `getenv(name)` answers is a function of (name, env_seed, env_epoch)
+    pub env_seed: u64,
+    pub env_epoch: u64,
+    pub env_reads_total: u64,
+    /// names the code under test asked for
+    pub env_names: std::collections::BTreeSet<String>,
 }
 
 pub type Env = Arc<Mutex<EnvState>>;
@@ -166,6 +172,53 @@ pub unsafe extern "C" fn getrandom(buf: *mut c_void, len: usize, flags: c_uint) 
     syscall(SYS_GETRANDOM, buf, len, flags as c_long) as isize
 }
 
+extern "C" {
+    static environ: *const *const std::os::raw::c_char;
+}
+
+unsafe fn real_getenv(name: &[u8]) -> *mut std::os::raw::c_char {
+    let mut p = environ;
+    if p.is_null() {
+        return std::ptr::null_mut();
+    }
+    while !(*p).is_null() {
+        let entry = std::ffi::CStr::from_ptr(*p).to_bytes();
+        if entry.len() > name.len() && &entry[..name.len()] == name && entry[name.len()] == b'=' {
+            return (*p).add(name.len() + 1) as *mut std::os::raw::c_char;
+        }
+        p = p.add(1);
+    }
+    std::ptr::null_mut()
+}
+
+static ENV_ONE: &[u8] = b"1\0";
+static ENV_EMPTY: &[u8] = b"\0";
+
+/// Third seam: the process environment. For simulated caller threads every variable the code
+/// under test asks for is unset, set to "1" or set to the empty string, decided by the simulator
+/// per (name, environment epoch); `RUST_*` names (std's own knobs) are passed through.
+#[no_mangle]
+pub unsafe extern "C" fn getenv(name: *const std::os::raw::c_char) -> *mut std::os::raw::c_char {
+    if name.is_null() {
+        return std::ptr::null_mut();
+    }
+    let bytes = std::ffi::CStr::from_ptr(name).to_bytes();
+    let env = active();
+    if !env.is_null() && !bytes.starts_with(b"RUST_") {
+        let mut st = (*env).lock().unwrap_or_else(|e| e.into_inner());
+        st.env_reads_total += 1;
+        let text = String::from_utf8_lossy(bytes).to_string();
+        let h = crate::rng::mix(&[crate::rng::hash_str(&text), st.env_seed, st.env_epoch]) % 4;
+        st.env_names.insert(text);
+        return match h {
+            0 | 1 => std::ptr::null_mut(),
+            2 => ENV_ONE.as_ptr() as *mut std::os::raw::c_char,
+            _ => ENV_EMPTY.as_ptr() as *mut std::os::raw::c_char,
+        };
+    }
+    real_getenv(bytes)
+}
+
 /// Self-test used by `fpsim selfcheck`: both seams must be live in this binary.
 pub fn seams_are_live() -> Result<(), String> {
     let env = new_env(CLOCK_FLOOR + 12345);
@@ -183,6 +236,8 @@ pub fn seams_are_live() -> Result<(), String> {
             }
             m.keys().cloned().collect::<Vec<_>>()
         };
+        let e = std::env::var_os("FPSIM_PROBE_VARIABLE_A").is_some() as u8 + std::env::var_os("FPSIM_PROBE_VARIABLE_B").is_some() as u8 + std::env::var_os("FPSIM_PROBE_VARIABLE_C").is_some() as u8 + std::env::var_os("FPSIM_PROBE_VARIABLE_D").is_some() as u8;
+        let _ = e;
         (t, order(16))
     })
     .join()
@@ -207,6 +262,9 @@ pub fn seams_are_live() -> Result<(), String> {
     let st = env.lock().unwrap();
     if st.getrandom_calls < 2 || st.wall_reads_total < 1 {
         return Err("seam counters did not move".into());
+    }
+    if st.env_reads_total < 4 {
+        return Err("environment seam not live: getenv calls of the probe thread were not seen".into());
     }
     Ok(())
 }
